@@ -9,7 +9,7 @@ PID = "C07"
 def check(tier):
     rep = Reporter(PID, tier)
     pvh = build_harness()
-    fams = ["n2swap", "n2left", "cmp", "logic", "str"] + ([] if tier == "quick" else ["n2", "n3"])
+    fams = ["n2swap", "n2left", "cmp", "logic", "str", "pow"] + ([] if tier == "quick" else ["n2", "n3"])
     pruned = 0
     for fam in fams:
         lines = []
